@@ -220,4 +220,4 @@ def check(ctx):
     # the persisted item count is what a reopened map reports as len() and what bounds its iterators
     import_rules(ctx, "c05", {"count-writers", "count-step", "count-arm"})
     # a reopen finds the files the map was created with: one file per (map name, kind)
-    import_rules(ctx, "c11", {"file-per-name-and-kind"})
+    import_rules(ctx, "c11", {"file-per-name-and-kind", "lookup-before-create"})
